@@ -580,11 +580,78 @@ Definition ikfs (sigs : list sig) (f : nat) : call -> option key :=
 Definition ivalids (sigs : list sig) (f : nat) : call -> bool :=
   match nth_error sigs f with Some s => bindable s | None => fun _ => false end.
 
+(* ------------------------------------------------------------------ alru_cache on a method: instance generations *)
+(* alru_cache with the default key on a method: `self` is argument 0 of the key (tools.py 229-237), an object that
+   is compared by identity.  Instances have lifetimes: the program holds the instance it calls the method on in a
+   *slot*; GDrop lets go of it (del + gc), and the next call on that slot is made on a fresh instance - the next
+   *generation* of the slot.  An instance is the pair (slot, generation); the address CPython gives it (a dead
+   instance's address is handed out again at once) is not part of the model, so two generations are never confused.
+   The key the machine runs on is (slot, generation, default key of the call with the slot number as argument 0);
+   the dead generations' entries stay in the LRU (the tuple in the OrderedDict holds the instance) until evicted. *)
+Definition ikey := (Z * Z * key)%type.
+Definition ikey_eqb (a b : ikey) : bool :=
+  (fst (fst a) =? fst (fst b)) && (snd (fst a) =? snd (fst b)) && key_eqb (snd a) (snd b).
+Definition islot (k : ikey) : Z := fst (fst k).
+Definition igen (k : ikey) : Z := snd (fst k).
+
+Inductive gop :=
+| GCall (id inst : Z) (c : call) (blocking : bool) (b : body)     (* c: the arguments after self *)
+| GFinish (id : Z)
+| GDrop (inst : Z).
+
+Fixpoint gen_of (g : list (Z * Z)) (i : Z) : Z :=
+  match g with [] => 0 | (j, n) :: g' => if j =? i then n else gen_of g' i end.
+Fixpoint gen_bump (g : list (Z * Z)) (i : Z) : list (Z * Z) :=
+  match g with
+  | [] => [(i, 1)]
+  | (j, n) :: g' => if j =? i then (j, n + 1) :: g' else (j, n) :: gen_bump g' i
+  end.
+
+Record gstate := mkG { ga : astate ikey; ggen : list (Z * Z) }.
+
+Definition with_self (i : Z) (c : call) : call := mkCall (i :: cargs c) (ckw c).
+Definition gkf (src : bool) (s : sig) (i n : Z) (c : call) : option ikey :=
+  match alru_key src KmDefault s c with Some k => Some (i, n, k) | None => None end.
+Definition slot_busy (l : list (Z * ikey * body)) (i : Z) : bool :=
+  existsb (fun x => islot (snd (fst x)) =? i) l.
+
+Section Gen.
+  Variable src : bool.
+  Variable s : sig.                      (* the method's signature, self included *)
+  Variable cap : nat.
+
+  Definition gstep (st : gstate) (o : gop) : gstate * res :=
+    match o with
+    | GCall id i c bl b =>
+      let '(a', r) := astep ikey ikey_eqb (gkf src s i (gen_of (ggen st) i)) (bindable s) cap (ga st)
+                            (ACall id (with_self i c) bl b) in
+      (mkG a' (ggen st), r)
+    | GFinish id =>
+      let '(a', r) := astep ikey ikey_eqb (fun _ => None) (bindable s) cap (ga st) (AFinish id) in
+      (mkG a' (ggen st), r)
+    | GDrop i =>
+      (* refused while a call on that instance is in flight (the running call holds self) *)
+      if slot_busy (infl (ga st)) i then (st, RBusy) else (mkG (ga st) (gen_bump (ggen st) i), RUnit)
+    end.
+
+  Fixpoint grun (st : gstate) (ops : list gop) : gstate * list (res * Z) :=
+    match ops with
+    | [] => (st, [])
+    | o :: ops' =>
+      let '(s1, r) := gstep st o in
+      let '(s2, rs) := grun s1 ops' in (s2, (r, Z.of_nat (length (store (ga s1)))) :: rs)
+    end.
+End Gen.
+
+Definition ginit : gstate := mkG ainit [].
+
 (* ------------------------------------------------------------------ entry point of the correspondence *)
 Inductive ccase :=
 | CAlru (km : keymode) (maxsize : Z) (s : sig) (ops : list aop)
 | CInst (s : sig) (ops : list pop)
 | CLazy (ttl now0 : Z) (ops : list lop)
+(* alru_cache (default key) on a method whose instances are dropped and replaced *)
+| CAlruG (maxsize : Z) (s : sig) (ops : list gop)
 (* families: decorator objects, (decorator index, signature) per function, operations addressed to a function *)
 | CAlruM (decos : list adeco) (fns : list (nat * sig)) (ops : list (nat * aop))
 | CInstM (ndecos : nat) (fns : list (nat * sig)) (ops : list (nat * pop))
@@ -606,6 +673,9 @@ Definition run_with (src : bool) (c : ccase) : cout :=
     if maxsize <=? 0 then OBadMaxsize
     else let '(st, rs) := arun key key_eqb (alru_key src km s) (bindable s) (Z.to_nat maxsize) ainit ops in
          OAlru rs (runs st)
+  | CAlruG maxsize s ops =>
+    if maxsize <=? 0 then OBadMaxsize
+    else let '(st, rs) := grun src s (Z.to_nat maxsize) ginit ops in OAlru rs (runs (ga st))
   | CInst s ops =>
     let '(st, rs) := prun key key_eqb (inst_key s) (bindable s) pinit ops in OInst rs (pruns st)
   | CLazy ttl now0 ops =>
